@@ -527,3 +527,34 @@ pub fn run<F: Family>(tier: Tier, seed: u64) -> i32 {
     }
     report.finish()
 }
+
+/// Replay of a recorded action path on fresh halves against the reference recurrence (no search).
+pub fn replay<F: Family>(r: &serde_json::Value) -> Result<String, String> {
+    let key = mc::util::unhex_n::<40>(r["session_key"].as_str().unwrap_or(""));
+    let rk = F::ref_key(&key);
+    let (mut e, mut d) = F::make(&key);
+    let mut re = refmodel::cipher::Recurrence { key: rk.clone(), n: 0, prev: 0 };
+    let mut rd = refmodel::cipher::Recurrence { key: rk.clone(), n: 0, prev: 0 };
+    let acts = r["actions"].as_array().cloned().unwrap_or_default();
+    for (i, a) in acts.iter().enumerate() {
+        if let Some(x) = a.as_u64() {
+            let x = x as u8;
+            let mut b1 = [x];
+            F::enc(&mut e, &mut b1);
+            let w1 = re.enc_byte(x);
+            let mut b2 = [x];
+            F::dec(&mut d, &mut b2);
+            let w2 = rd.dec_byte(x);
+            if b1[0] != w1 {
+                return Err(format!("step {i}: encrypt({x:#04x}) gave {:#04x}, recurrence says {w1:#04x}", b1[0]));
+            }
+            if b2[0] != w2 {
+                return Err(format!("step {i}: decrypt({x:#04x}) gave {:#04x}, inverse recurrence says {w2:#04x}", b2[0]));
+            }
+        } else {
+            F::enc(&mut e, &mut []);
+            F::dec(&mut d, &mut []);
+        }
+    }
+    Ok(format!("{} steps follow the recurrence in both directions", acts.len()))
+}
